@@ -171,9 +171,16 @@ def make_frame(case):
 def bins_arg(b):
     t = b["t"]
     if t == "count":
-        return int(b["n"])
+        # the class count as a Python int, a numpy integer or a 0-d array (`as`)
+        return {"np64": np.int64, "np32": np.int32, "zerod": np.array}.get(b.get("as"), int)(int(b["n"]))
     if t == "npcount":
         return np.int64(b["n"])
+    if t == "count0d":
+        return np.array(int(b["n"]))
+    if t == "iv2":
+        # intervals from two edge arrays (like left, left + width): the shared edges may differ in the last bit;
+        # the code takes left[0] and the RIGHT bounds as class edges = b["e"]
+        return pd.IntervalIndex.from_arrays([float(x) for x in b["left"]], [float(x) for x in b["e"][1:]])
     if t == "count2":
         return [int(b["nx"]), int(b["ny"])]
     if t in ("edges2", "lists2"):
@@ -371,7 +378,7 @@ class C14(Prop):
         "combine_sum_conserves_optional", "rebin_then_combine_conserves", "hist_rebin_combine_conserves")]
     PARTIAL = {}
     RULE = ("case kinds: coll (rows from/to/cycles or range/mean; derived quantities; scale/shift by scalar, numpy scalar, 0-d array, one value per cycle as ndarray / list, or Series; source collective and operand unchanged afterwards, the same call twice on the same object gives the same result), "
-            "hist (range_histogram / histogram / recorder histogram with edges, class count, [ex, ey] / [nx, ny], IntervalIndex/IntervalArray "
+            "hist (range_histogram / histogram / recorder histogram with edges, class count as int / numpy integer / 0-d array, [ex, ey] / [nx, ny], IntervalIndex/IntervalArray, intervals from two edge arrays whose shared edges differ in the last bit "
             "(right- or left-closed, with gaps/overlaps: must be rejected), one class, zero-width class, values exactly on edges or one ulp "
             "beside them, extra index levels in any order, unnamed level, axis = any level or None, recording in chunks), lh (LoadHistogram "
             "range/mean and from/to matrices: mids / left / right class location, scale, shift by scalar or Series, R, amplitude_histogram, "
@@ -525,8 +532,10 @@ class C14(Prop):
             ncell = (len(ax) - 1) * (len(ay) - 1)
             k = rng.choice([2, 2, 3])
             hists = [[(None if rng.random() < 0.3 else float(rng.randint(0, 80)) / 2) for _ in range(ncell)] for _ in range(k)]
-            yield {"kind": "combine2d", "names": rng.choice([["range", "mean"], ["from", "to"]]), "ax": ax, "ay": ay, "hists": hists,
-                   "reversed": [rng.random() < 0.25 for _ in range(k)], "swapped": [rng.random() < 0.35 for _ in range(k)]}
+            names = rng.choice([["range", "mean"], ["from", "to"], [None, None], ["x", "x"], [None, "mean"]])
+            by_name = None not in names and names[0] != names[1]      # the level order can only differ where the names tell the levels apart
+            yield {"kind": "combine2d", "names": names, "ax": ax, "ay": ay, "hists": hists,
+                   "reversed": [rng.random() < 0.25 for _ in range(k)], "swapped": [by_name and rng.random() < 0.35 for _ in range(k)]}
         else:
             k = rng.choice([1, 2, 3, 4])
             hists = []
@@ -563,15 +572,18 @@ class C14(Prop):
         with_c = rng.random() < 0.5
         rows = gen_rows(rng, n, with_c, small=rng.random() < 0.3)
         which = rng.choice(["range", "range", "rm", "rm", "rec", "rec"])
-        bt = rng.choice(["edges", "edges", "array", "count", "count", "iv", "ia", "ivleft", "ivbad"])
+        bt = rng.choice(["edges", "edges", "array", "count", "count", "iv", "iv2", "ia", "ivleft", "ivbad"])
+        count_as = rng.choice(["int", "int", "np64", "np32", "zerod", "zerod"])
         if which == "rec":
             src = [[r[0], 0.0, 1.0] for r in rows] + [[r[1], 0.0, 1.0] for r in rows]
             u = rng.random()
             if bt == "count":
-                bins = ({"t": "count", "n": rng.choice([1, 2, 3, 5, 10])} if u < 0.5 else
+                bins = ({"t": "count", "n": rng.choice([1, 2, 3, 5, 10]), "as": count_as} if u < 0.5 else
                         {"t": "count2", "nx": rng.choice([1, 2, 3, 7]), "ny": rng.choice([1, 2, 4, 5])})
             else:
                 ex = gen_edges(rng, src, False)
+                if bt == "iv2":
+                    bt = "edges"
                 if u < 0.4:
                     if len(ex) == 2:
                         ex = [ex[0], (ex[0] + ex[1]) / 2, ex[1]]   # two scalars mean [nx, ny] for the recorder (documented numpy spec)
@@ -585,14 +597,28 @@ class C14(Prop):
                 case["chunks"] = [b - a for a, b in zip([0] + cuts, cuts + [n])]
             return case
         if bt == "count":
-            bins = {"t": "count", "n": rng.choice([1, 1, 2, 3, 5, 10])}
+            bins = {"t": "count", "n": rng.choice([1, 1, 2, 3, 5, 10]), "as": count_as}
+        elif bt == "iv2":
+            left = sorted(set(gen_edges(rng, rows, which == "rm")))
+            if len(left) < 3:
+                left = [left[0], left[0] + 1.0, left[0] + 2.5]
+            eff = list(left)
+            for j in range(1, len(left) - 1):          # the right bound of class j-1 is one ulp beside the left bound of class j
+                if left[j] != 0.0 and rng.random() < 0.7:
+                    eff[j] = ulp(left[j], rng.random() < 0.5)
+            bins = {"t": "iv2", "e": eff, "left": left[:-1]}
         elif bt == "ivbad":
             e = [x for x in sorted(set(gen_edges(rng, rows, which == "rm")))]
             while len(e) < 4:
                 e.append(e[-1] + 1.0)
             ivs = [[e[i], e[i + 1]] for i in range(len(e) - 1)]
-            if rng.random() < 0.6:
+            u = rng.random()
+            if u < 0.4:
                 del ivs[rng.randrange(1, len(ivs) - 1)]                     # a gap
+                bins = {"t": "iv_gap", "iv": ivs}
+            elif u < 0.6:
+                j = rng.randrange(0, len(ivs) - 1)                          # a small but real gap / overlap (far beyond the last bits)
+                ivs[j][1] = ivs[j][1] + rng.choice([-1.0, 1.0]) * max(abs(ivs[j][1]), 1.0) * rng.choice([1e-9, 1e-6])
                 bins = {"t": "iv_gap", "iv": ivs}
             else:
                 j = rng.randrange(0, len(ivs) - 1)
@@ -640,7 +666,10 @@ class C14(Prop):
                 target = [a + (b - a) * i / m for i in range(m + 1)]
             else:
                 target = sorted({a + (b - a) * rng.randint(1, 31) / 32 for _ in range(m - 1)} | {a, b})
-        return {"kind": "chain", "parts": parts, "target": target, "order": rng.choice(["fwd", "fwd", "rev"])}
+        case = {"kind": "chain", "parts": parts, "target": target, "order": rng.choice(["fwd", "fwd", "rev"])}
+        if rng.random() < 0.3:
+            case["index_name"] = rng.choice([None, "x"])
+        return case
 
     def _pipe_case(self, rng):
         """2-3 histograms with their own binnings -> one common (wider) binning, nan_default True/False -> combine."""
@@ -743,7 +772,9 @@ class C14(Prop):
         if rng.random() < 0.3:
             case["src_dtype"] = "int64"
         if tk == "count":
-            case["target"] = {"t": rng.choice(["count", "count", "npcount"]), "n": rng.choice([1, 1, 2, 3, 7])}
+            case["target"] = {"t": "count", "n": rng.choice([1, 1, 2, 3, 7]), "as": rng.choice(["int", "int", "np64", "np32"])}
+            if rng.random() < 0.1:
+                case["target"] = {"t": "count0d", "n": case["target"]["n"]}     # a 0-d array is not an int for rebin_histogram: oracle only
         elif tk == "invalid":
             e = sorted({lo - 1.0, lo, (lo + hi) / 2, hi, hi + 1.0, hi + 2.0})
             ivs = [[e[i], e[i + 1]] for i in range(len(e) - 1)]
@@ -859,7 +890,7 @@ class C14(Prop):
             flat = " ".join(hx(s) for s in case["src"])
             t = case["target"]
             lines = []
-            if t["t"] in ("invalid", "npcount"):
+            if t["t"] in ("invalid", "npcount", "count0d"):
                 return []          # oracle only
             if t["t"] == "count":
                 lines.append(f"c14 rebinn {t['n']} {flat}")
@@ -1067,11 +1098,11 @@ class C14(Prop):
             t = case["target"]
             lines = []
             covered = True
-            if t["t"] in ("invalid", "npcount"):
+            if t["t"] in ("invalid", "npcount", "count0d"):
                 self._count("bins", "rebin:" + t["t"])
                 return []
             if t["t"] == "count":
-                self._count("bins", "rebin:" + t["t"])
+                self._count("bins", "rebin:count:" + t.get("as", "int"))
                 try:
                     r = m["rebin"](h, bins_arg(t))
                     lines.append(hx(edges_of_index(r.index)) + ";" + hx(r.to_numpy(dtype=float)))
@@ -1176,6 +1207,8 @@ class C14(Prop):
         for p in self._chain_parts(case):
             lc = make_frame({"rows": p["rows"], "cycles": p.get("cycles")}).load_collective
             h = lc.range_histogram(bins_arg({"t": p["bt"], "e": p["e"]})).to_pandas()
+            if "index_name" in case:
+                h = h.rename_axis(case["index_name"])     # an unnamed / otherwise named class level (every histogram alike)
             hs.append(h)
             rb.append(m["rebin"](h, target) if p.get("rebin", True) else h)
         return hs, rb, m["combine"](rb, "sum")
@@ -1237,7 +1270,7 @@ class C14(Prop):
 
     def _impl_hist(self, case):
         b = case["bins"]
-        self._count("bins", case["which"] + ":" + b["t"] + (":axis" if case.get("axis") else ""))
+        self._count("bins", case["which"] + ":" + b["t"] + (":" + b["as"] if b.get("as", "int") != "int" else "") + (":axis" if case.get("axis") else ""))
         if case.get("levels"):
             names = full_names(case)
             self._count("layouts", f"levels={len(names)} axis={'none' if case.get('axis') is None else 'last' if names[-1] == case['axis'] else 'inner'}"
@@ -1733,11 +1766,22 @@ class C14(Prop):
                         "rebin-invalid-binning")
             return (f"rebin_histogram accepts the invalid binning ({t['what']}) {arg!r}: total {float(np.nansum(r.to_numpy(dtype=float)))} "
                     f"of {total}", "rebin-invalid-binning")
+        if t["t"] == "count0d":
+            # documented: IntervalIndex or int.  A 0-d array is either refused (TypeError) or taken as the class count
+            try:
+                r = m["rebin"](h, bins_arg(t))
+            except TypeError:
+                self._count("errors", "rebin-0d-array:TypeError")
+                return None
+            ri = m["rebin"](h, int(t["n"]))
+            if not ri.index.equals(r.index) or list(ri.to_numpy(dtype=float)) != list(r.to_numpy(dtype=float)):
+                return (f"rebin_histogram(h, np.array({t['n']})) differs from rebin_histogram(h, {t['n']})", "rebin-numpy-integer-count")
+            return None
         if t["t"] in ("count", "npcount"):
             try:
                 r = m["rebin"](h, bins_arg(t))
             except Exception as e:
-                cls = "rebin-numpy-integer-count" if t["t"] == "npcount" and isinstance(e, TypeError) else "rebin-error"
+                cls = "rebin-numpy-integer-count" if (t["t"] == "npcount" or t.get("as", "int") != "int") and isinstance(e, TypeError) else "rebin-error"
                 d = f"rebin_histogram(h, {bins_arg(t)!r}) raises {type(e).__name__}: {e}"
                 if not self.known(cls, d):
                     return (d, cls)
@@ -1991,11 +2035,19 @@ class C14(Prop):
     def _oracle_combine2d(self, case):
         hs, parts = self._combine2d_inputs(case)
         n1, n2 = case["names"]
+        by_name = n1 is not None and n2 is not None and n1 != n2
+        self._count("bins", "combine2d:names=" + ("unnamed" if n1 is None and n2 is None else "one-unnamed" if None in (n1, n2) else "same-twice" if n1 == n2 else "named"))
 
         def extract(r):
-            a, b = r.index.get_level_values(n1), r.index.get_level_values(n2)
+            a, b = (r.index.get_level_values(n1), r.index.get_level_values(n2)) if by_name else (r.index.get_level_values(0), r.index.get_level_values(1))
             return {(float(xl), float(xr), float(yl), float(yr)): float(v)
                     for xl, xr, yl, yr, v in zip(a.left, a.right, b.left, b.right, r.to_numpy(dtype=float))}
+        try:
+            r0 = mods()["combine"](hs, "sum")
+        except Exception as e:
+            return (f"combine_histogram of two-level histograms with the level names {case['names']} raises {type(e).__name__}: {e}", "combine-error")
+        if len(r0) and (r0.index.nlevels != 2 or list(r0.index.names) != list(hs[0].index.names)):
+            return (f"the combined histogram has the levels {list(r0.index.names)}, the first histogram has {list(hs[0].index.names)}", "combine-class")
         swapped = case.get("swapped") or []
         if any(swapped) and not all(swapped):
             self._count("bins", "combine2d:mixed-level-order")
